@@ -179,6 +179,7 @@ class PVManager(ComponentManager):
             request.power,
             allocations,
         )
+        self._target_power = request.power - remaining_power
         await self._set_api_power(request, allocations, remaining_power)
 
     async def _set_api_power(  # pylint: disable=too-many-locals
